@@ -59,6 +59,9 @@ def gen(rng, tier):
         else:
             targets = rng.choice([None, sorted(rng.sample(range(n),
                                                rng.randint(1, n)))])
+            if targets and rng.random() < 0.5:
+                # the caller lists the entities in an order of its own
+                rng.shuffle(targets)
         sk = rng.choice(['none', 'none', 'one', 'several', 'final'])
         if sk == 'none':
             state = None
